@@ -548,6 +548,7 @@ func runRegistryEnum(rc *RunCtx) {
 	}
 	seq, ok := decodeSeq(rc.EnumIndex, len(registryEnumAlphabet), depth)
 	if !ok {
+		rc.Stat("probe.enum.exhausted", 1) // every history of the enumeration has had its turn
 		runRegistrySeqOps(rc, "C06", nil)
 		return
 	}
